@@ -77,9 +77,16 @@ func VH_C01_sync_then_events() {
 	buffered := make([]bool, k+1)
 	snapshotsDoneAt := make([]int, k+1) // number of completed Snapshot() calls when change i had been handled
 	snapshotsDone := 0
+	// the shared informer replays its store to a new handler as Added notifications:
+	// the first change may arrive as an Added for the object that was listed already
+	firstAsAdded := zz.Bool("first_change_arrives_as_added")
 	zz.Go("informer", func() {
 		for i := 1; i <= k; i++ {
-			ei.OnUpdate(nil, vhC01Object(i))
+			if i == 1 && firstAsAdded {
+				ei.OnAdd(vhC01Object(i), false)
+			} else {
+				ei.OnUpdate(nil, vhC01Object(i))
+			}
 			for _, ev := range ei.eventBuf {
 				for _, o := range ev.Objects {
 					if vhStateOf(o, sums) == i {
